@@ -336,6 +336,9 @@ type Options struct {
 	// running thread is blocked or finished. Polynomial in the number of points
 	// whatever the number of threads.
 	Delay bool
+	// Stop, if set, is consulted before every execution; returning true ends the
+	// exploration early (used once enough counterexamples have been collected).
+	Stop func() bool
 }
 
 // Stats of an exploration.
@@ -345,6 +348,7 @@ type Stats struct {
 	MaxDepth   int
 	MaxThreads int
 	Capped     bool
+	Stopped    bool  // ended early by Options.Stop
 	Nodes      int64 // distinct schedule-tree nodes (decision points) visited
 }
 
@@ -395,6 +399,10 @@ func Explore(o Options, body func(), check func(x *Exec)) Stats {
 	rec = func(prefix []int, expect []Decision) {
 		if o.MaxExecs > 0 && st.Executions >= o.MaxExecs {
 			st.Capped = true
+			return
+		}
+		if o.Stop != nil && o.Stop() {
+			st.Stopped = true
 			return
 		}
 		x := RunOnce(o, prefix, expect, body)
